@@ -53,6 +53,7 @@ def one_reader(ctx, report, cls):
     E.rule_hashorder(report, run, f"{cls.name}.read: no hash order reaches the result", "3")
     E.rule_nondet(report, run, f"{cls.name}.read calls no clock / random / environment source", "3")
     E.rule_globalmut(report, run, f"{cls.name}.read mutates no module-/class-level object", "4")
+    E.rule_result_alias(report, run, f"{cls.name}.read: the result shares no mutable object with module-level state", "4")
     report.count("functions_inlined", len(run.I.visited_functions))
     report.count("calls_unresolved", run.I.counters["calls_unresolved"])
 
